@@ -73,7 +73,10 @@ def runAll (ty : ThType) (T I J : Nat) (x : Data) (grp : Option (Nat → Int)) (
   let met : Metric := ⟨ty, s0, s1⟩
   match mask met x grp T with
   | .error e => "error " ++ e
-  | .ok m =>
+  | .ok m0 =>
+    -- tabulate the mask once (the model's functions are evaluated many times per entry)
+    let ma := (tab3 T I J m0).toArray
+    let m : Mask := fun t i j => ma.getD ((t * I + i) * J + j) false
     let instS := String.join ((tab3 T I J (inst m)).map toString)
     let filtS := showList showRat (tab3 T I J (filt x m))
     let probS := showList showRat (tab2 I J (prob m T))
